@@ -41,6 +41,8 @@ CLAIMED = {
          "Class representatives x 12 text positions x conversion on/off (TLC-enumerated), random mixed strings, and a code-point sweep through body cells (quick: boundaries +-64 and 30 000 sampled; thorough: every scalar value except C0/C1 controls): TLC checks that the reader decodes exactly the input, that every \\u argument is within -32768..32767 and is followed by exactly uc fallback characters."),
  "C11": ("5 C11", "TLC model checking of the documented scanner (spec/TextScan.tla, spec/TextConv.tla) + trace validation (spec/TextTrace.tla): the scanner consumes the reader's events of the rendered run action by action",
          "All abstract strings up to length 3 (thorough 4) over an 18-symbol alphabet in both modes (TLC, exhaustive) and longer simulated ones, each of the 682 table commands in 6 (thorough 40) context templates, probe strings in every component kind with default and overridden text_convert, per-cell text_convert: the real rendering is read back and TLC replays the documented scanner against the reader's events."),
+ "C16": ("5 C16", "TLC model checking of spec/Figure.tla + TLC trace validation (spec/FigTrace.tla) of figure documents read back (picture type, pixel and display dimensions, hex payload decoded)",
+         "TLC generates figure documents (1..6 figures, width/height lists of any length, caption presence and placement); image files are random bytes with valid PNG/JPEG headers of random dimensions or EMF blobs, with payload sizes around the hex line boundary; TLC checks one picture per page in order, type, pixel size from the image header, display size = inches x 1440 with positional reuse of the last value, byte-exact payload (<=512 bytes byte by byte, larger by length+SHA-1) and captions per placement option."),
 }
 PENDING = {}
 
